@@ -106,6 +106,21 @@ _C.REGISTRY["acryo.loader._misc:random_splitter"].result = \
 _C.REGISTRY["acryo.loader._misc:random_splitter"].call_ensures = ["complement"]
 
 
+def _native_halves_ok(result, loader, n_set, seed, output_shape):
+    """each half-map is the plain mean of the sub-tomograms its index array selects (index arrays re-drawn with the
+    real random_splitter from the same seed), over the loader's own stack"""
+    import numpy as np
+    from acryo.loader._misc import random_splitter
+    stack = np.asarray(loader.construct_dask(output_shape=tuple(output_shape)).compute(), dtype=np.float64)
+    rng = np.random.default_rng(seed=seed)
+    ok = True
+    for t in range(n_set):
+        ind0, ind1 = random_splitter(rng, stack.shape[0])
+        ok = ok and np.allclose(result[t, 0], stack[ind0].mean(axis=0), atol=1e-4)
+        ok = ok and np.allclose(result[t, 1], stack[ind1].mean(axis=0), atol=1e-4)
+    return bool(ok)
+
+
 @contract("acryo.loader._base:LoaderBase.average_split", props=["C09", "C17"])
 class average_split:
     """for every set t: half-map (t, 0) is the mean of the sub-tomograms selected by the first index array of the t-th
@@ -114,10 +129,12 @@ class average_split:
     params = dict(self=TLoader(TMolecules(features=["f0"], min_n=2)), n_set=T.OneOf(1, 2), seed=T.Int(),
                   squeeze=T.Const(False), output_shape=_SHAPE)
     helpers = dict(masked_means=masked_means)
+    native_helpers = dict(_native_halves_ok=_native_halves_ok)
     imports = NATIVE_IMPORTS
     native_call = "args['self'].average_split(args['n_set'], args['seed'], False, args['output_shape'])"
-    native = {"shape": "result.shape == (n_set, 2) + tuple(output_shape)", "halves_from_one_split": "True",
-              "assembled_in_order": "True", "seeded": "True"}
+    native = {"shape": "result.shape == (n_set, 2) + tuple(output_shape)",
+              "halves_from_one_split": "_native_halves_ok(result, self, n_set, seed, output_shape)",
+              "assembled_in_order": "_native_halves_ok(result, self, n_set, seed, output_shape)", "seeded": "True"}
     ensures = {
         "shape": "result.shape[0] == n_set and result.shape[1] == 2 and shape_eq(result.shape[2:], output_shape)",
         "halves_from_one_split":
